@@ -23,7 +23,12 @@ def r_constructors(rule, root=None):
         fn = A.find_fn(JIT, name, self_ty="JitFunction", root=root)
         st = [s for s in A.find(fn["body"], "Struct") if A.path_segs(s["path"])[-1] in ("JitTracingFn", "JitBulkFn")]
         f = {x["name"]: txt(x["e"]) for x in st[0]["fields"]} if st else {}
-        bad = {k: f.get(k) for k, v in want.items() if f.get(k) != v}
+        # a name for the function's data (`let data = self.0.data();`) reads as the data; the function's own
+        # count accessors delegate to the data's (checked by the accessor rule), so both spellings are one
+        view = A.value_view(fn["body"])
+        stv = [s_ for s_ in A.find(view, "Struct") if A.path_segs(s_["path"])[-1] in ("JitTracingFn", "JitBulkFn")]
+        fv_ = {x["name"]: str(txt(x["e"])).replace("self.0.data().choice_count()", "self.0.choice_count()").replace("self.0.data().output_count()", "self.0.output_count()") for x in stv[0]["fields"]} if stv else {}
+        bad = {k: f.get(k) for k, v in want.items() if f.get(k) != v and fv_.get(k) != v}
         if not bad:
             rule.ok("JitFunction::%s copies %s from their namesakes" % (name, sorted(want)), file=JIT, line=fn["ln"])
         else:
